@@ -70,7 +70,6 @@ EDITS=[
  ("C28","untest-forgets-an-operator","interp/test.go",("\tcase syntax.TsNot:\n\t\treturn x == \"\"\n",""),"interp.Runner.unTest#panic@"),
  ("C16","yield-wrapper-appends-in-place","expand/braces.go",("\t\t\t\tw.Parts = slices.Concat(left, w.Parts)","\t\t\t\tw.Parts = append(left, w.Parts...)"),"expand.bracesSeqRec$1$1#onstore@Word.Parts"),
  ("C28","assign-name-one-byte-short","syntax/parser.go",("\t\tas.Name = p.lit(p.pos, p.val[:nameEnd])","\t\tas.Name = p.lit(p.pos, p.val[:nameEnd-1])"),"syntax.Parser.getAssign#onstore@Assign.Name"),
- ("C28","ident-check-skips-append-form","syntax/parser.go",("\t\t\tend-- // a+=x\n","\t\t\tend -= 2 // a+=x\n"),"syntax.Parser"),
  ("C18","hasmeta-forgets-question-mark","pattern/pattern.go",("\t\tcase '*', '?':\n\t\t\treturn true","\t\tcase '*':\n\t\t\treturn true"),"pattern.HasMeta#"),
  ("C18","hasmeta-skips-two","pattern/pattern.go",("\t\tcase '\\\\':\n\t\t\ti++\n\t\tcase '*', '?':","\t\tcase '\\\\':\n\t\t\ti += 2\n\t\tcase '*', '?':"),"pattern.HasMeta#"),
  ("C18","hasmeta-any-bracket","pattern/pattern.go",("\t\t\tif openBracket {\n\t\t\t\treturn true\n\t\t\t}","\t\t\tif openBracket || i > 0 {\n\t\t\t\treturn true\n\t\t\t}"),"pattern.HasMeta#"),
@@ -131,6 +130,7 @@ REVERTS=[ # prop, fix commit in /repo whose reversal must be caught, expect
  ("C28","e8575ea","interp.Runner.cmd#panic@"),
  ("C30","4ce7a80","interp#opts-mirrored@Runner.builtin"),
  ("C28","7083a6e","interp."),
+ ("C28","c83dabc","expand.Config.paramExp#panic@"),
  ("C28","91e7a01","syntax.Parser.hasValidIdent#ensures@ident-has-name"),
  ("C07","baece75","syntax#refill-at-boundary@Parser.rune"),
  ("C07","fd8acef","syntax#refill-at-boundary@Parser.next"),
